@@ -73,8 +73,11 @@ def apply_task_fault(rng, spec, kind, steps):
                 continue
             t["beh"] = "savefail"
         elif kind == "state":
-            if not t["deps"] or t["deps"][0] in produced:
-                continue
+            # the DAG keeps ONE node object per path: the failing node must be an input no other task declares
+            n = max([int(k) for k in spec["inputs"]] + list(produced) + [d for u in tasks for d in u["deps"]] + [100]) + 1
+            spec["inputs"][str(n)] = rng.randint(1, 50)
+            t["deps"] = sorted(t["deps"] + [n])
+            t["faulty_dep"] = n
             t["setup_fault"] = "state"
         elif kind == "hash":
             t["setup_fault"] = "hash"
